@@ -163,7 +163,8 @@ namespace GeographicLib {
   }
 
   int Utility::lookup(const char* s, char c) {
-    const char* p = strchr(s, toupper(c));
+    // strchr matches the terminating NUL, which is not part of the alphabet
+    const char* p = c != '\0' ? strchr(s, toupper(c)) : NULL;
     return p != NULL ? int(p - s) : -1;
   }
 
